@@ -58,6 +58,7 @@ func parseX(src []byte, mode xparser.Mode) (r xres) {
 
 type site struct {
 	funPos, funEnd int  // offsets of the callee
+	funKind        string // node kind of the callee
 	untrusted      bool // found after the first reported error (the tree is not faithful there)
 }
 
@@ -74,7 +75,8 @@ func cmdSites(r xres) (sites []site) {
 		if c, ok := n.(*xast.CallExpr); ok && c.IsCommand() && c.Fun != nil {
 			func() {
 				defer func() { recover() }()
-				sites = append(sites, site{funPos: tf.Offset(c.Fun.Pos()), funEnd: tf.Offset(c.Fun.End())})
+				sites = append(sites, site{funPos: tf.Offset(c.Fun.Pos()), funEnd: tf.Offset(c.Fun.End()),
+					funKind: strings.TrimPrefix(reflect.TypeOf(c.Fun).String(), "*ast.")})
 			}()
 		}
 	})
@@ -90,7 +92,13 @@ func nextTok(toks []pgo.Tok, off int) *pgo.Tok {
 	return nil
 }
 
-func siteKey(k xtoken.Token) string {
+// siteKey: the recorded deviations are command calls whose callee is an identifier or a
+// selector (isCmd also admits an ErrWrapExpr, which Go tokens cannot form); anything else
+// gets its own key.
+func siteKey(k xtoken.Token, funKind string) string {
+	if funKind != "Ident" && funKind != "SelectorExpr" && funKind != "" {
+		return "cmd-callee-" + funKind + "-" + pgo.KindName(k)
+	}
 	switch k {
 	case xtoken.LPAREN:
 		return "cmd-lparen"
@@ -267,7 +275,7 @@ func compareRepaired(src []byte, mode xparser.Mode, report bool) (verdict, []byt
 			if b := nextTok(v.toks, s.funEnd); b != nil {
 				if v.kind != "same" {
 					if report {
-						oracle(siteKey(b.Kind), mode, snippetAround(cur, s.funPos, b.End), fmt.Sprintf("%s: %s", v.kind, v.detail))
+						oracle(siteKey(b.Kind, s.funKind), mode, snippetAround(cur, s.funPos, b.End), fmt.Sprintf("%s: %s", v.kind, v.detail))
 					}
 				} else {
 					out.Count("cmd_site_same_shape")
@@ -340,7 +348,7 @@ func stmtFallback(cur []byte, fset *gotoken.FileSet, f *goast.File, errs []int) 
 		}
 		fixes = append(fixes, fix{toks[i-1].End, bpos})
 		if at < 0 || ref.start < at {
-			at, key = ref.start, siteKey(toks[i].Kind)
+			at, key = ref.start, siteKey(toks[i].Kind, "")
 		}
 	}
 	if len(fixes) == 0 {
@@ -760,7 +768,7 @@ func main() {
 	defer out.Close()
 	if f.Replay != "" {
 		fs := strings.Split(f.Replay, "\t")
-		if len(fs) == 1 {
+		if len(fs) < 3 {
 			fs = strings.Fields(f.Replay) // oracle.txt lines have blanks instead of tabs
 		}
 		switch {
